@@ -168,7 +168,7 @@ pub fn gen_world(rng: &mut Rng, prop: &str) -> WorldCfg {
     };
     let oracle = if kind == WorldKind::FeedOnly { OracleKind::Real } else { oracle };
     let nv = match prop {
-        "C14" => rng.range(2, 3),
+        "C14" => rng.range(2, 4),
         "C09" | "C20" => rng.range(1, 2),
         _ => *rng.pick(&[1u64, 1, 1, 2, 2, 3]),
     } as usize;
@@ -227,7 +227,7 @@ pub fn gen_world(rng: &mut Rng, prop: &str) -> WorldCfg {
             _ => spot,
         }
         .max(1);
-        let registered = if prop == "C14" { !rng.chance(1, 6) } else { true };
+        let registered = if prop == "C14" { i < 3 && !rng.chance(1, 6) } else { true };
         let open = true;
         let vdec = if prop == "C20" && i > 0 && rng.chance(1, 2) { if dec == 6 { 8 } else { 6 } } else { dec };
         let vd: U = 10u128.pow(vdec as u32);
@@ -408,7 +408,24 @@ impl Gen {
         if rng.chance(1, 2) {
             margin += 1;
         }
-        let limit = 0;
+        // slippage limits on both sides of and exactly at the quoted amount (mostly none)
+        let p_limit = if self.profile.prop == "C17" { 60 } else { 8 };
+        let limit = if rng.chance(p_limit, 100) {
+            let n_eff = mul_div(margin, lev, d).unwrap_or(0);
+            match curve_input(side.dir(), n_eff, vo.q, vo.b, vo.decimals.max(1)) {
+                Some(qv) => match rng.below(6) {
+                    0 => qv,
+                    1 => qv + 1,
+                    2 => qv.saturating_sub(1).max(1),
+                    3 => qv.saturating_mul(2),
+                    4 => (qv / 2).max(1),
+                    _ => qv,
+                },
+                None => 0,
+            }
+        } else {
+            0
+        };
         Op::Open { vamm: v, side, margin, leverage: lev, limit }
     }
 
@@ -417,8 +434,25 @@ impl Gen {
         let actor = self.pick_trader(r, rng);
         let pos = r.obs.position(v, &actor).cloned().filter(|p| p.size != 0);
         let d = r.w.d;
+        let p_limit = if self.profile.prop == "C17" { 60 } else { 8 };
+        let close_limit = match pos.as_ref() {
+            Some(p) if rng.chance(p_limit, 100) => {
+                let vo = &r.obs.vamms[v];
+                match curve_output(p.dir, p.size.unsigned_abs(), vo.q, vo.b, vo.decimals.max(1)) {
+                    Some(qv) => match rng.below(5) {
+                        0 => qv,
+                        1 => qv + 1,
+                        2 => qv.saturating_sub(1).max(1),
+                        3 => qv.saturating_mul(2),
+                        _ => (qv / 2).max(1),
+                    },
+                    None => 0,
+                }
+            }
+            _ => 0,
+        };
         let op = match (pos.as_ref(), rng.below(20)) {
-            (Some(_), 0..=4) => Op::Close { vamm: v, limit: 0 },
+            (Some(_), 0..=4) => Op::Close { vamm: v, limit: close_limit },
             (Some(p), 5 | 6) => {
                 let amt = match rng.below(4) {
                     0 => rng.range128(1, 1000),
@@ -450,6 +484,14 @@ impl Gen {
         };
         let mut st = Step::new(&actor, op);
         st.funds = native_funds(r, &actor, &st.op);
+        if r.w.cfg.coll.is_native() && matches!(st.op, Op::Deposit { .. }) && rng.chance(1, 5) {
+            // attach something other than the declared amount
+            st.funds = match rng.below(3) {
+                0 => st.funds + 1,
+                1 => st.funds.saturating_sub(1),
+                _ => st.funds * 2,
+            };
+        }
         st
     }
 
